@@ -76,10 +76,13 @@ package prolog
 //@   requires[done-records-exhaustion] (gf(exhausted, s) == 0 || gf(exhausted, s) == 1) && (gf(exhausted, s) == 1 ==> s.done)
 //@   on-recv next gf(exhausted, s)
 //@   at-event send more requires[the-producer-is-still-listening] gf(exhausted, s) == 0
+//@   at-event send more requires[asks-for-one-more-answer] sent
 //@   ensures[done-records-exhaustion] gf(exhausted, s) == 1 ==> s.done
 //@   ensures[finished-means-false-without-communication] old(s.closed) || old(s.done) ==> !result && ghost(chanops) == 0
 //@   ensures[false-means-finished] !result ==> s.closed || s.done
 //@   ensures[true-means-an-answer-was-received] result ==> gf(exhausted, s) == 0 && !s.done && ghost(chanops) == 2
+//@   ensures[the-answer-received-is-the-one-scan-will-read] result ==> s.env == received(next)
+//@   ensures[the-error-of-the-query-is-kept] s.err == old(s.err) && s.vm == old(s.vm) && s.more == old(s.more) && s.next == old(s.next)
 //@   ensures[next-never-closes] s.closed == old(s.closed) && ghost("closed:more") == 0
 
 //@ func (*Solutions).Close
@@ -87,7 +90,7 @@ package prolog
 //@   requires s != nil
 //@   modifies s.closed
 //@   ensures[repeated-close] old(s.closed) ==> result == ErrClosed && ghost(chanops) == 0 && s.closed
-//@   ensures[first-close] !old(s.closed) ==> result == nil && s.closed
+//@   ensures[first-close] !old(s.closed) ==> result == nil && s.closed && ghost("closed:more") == 1
 
 //@ func (*Solutions).Err
 //@   property C12
@@ -118,7 +121,8 @@ package prolog
 //@   nosafety
 //@   trusted-frame
 //@   bind b = engine.Bool#1
-//@   at-event send next requires[the-answer-s-environment-is-handed-over] true
+//@   at-event send next requires[the-answer-s-environment-is-handed-over] sent == param(0)
+//@   at-call engine.Bool requires[goes-on-iff-the-consumer-asked-for-more] a0 == !received(more)
 //@   ensures[asks-the-consumer-then-continues-or-stops-without-an-error] called(b) && result == b && ghost(chanops) == 2
 
 //@ -- Scan into a map: each variable is converted into a destination allocated for it in its own iteration (a shared
